@@ -153,7 +153,7 @@ def run(chk):
             chk.violation(f"{R.VNAME[res['ver']]} {res['name']}: {b}", dict(ver=res["ver"], suite=res["code"], why=b))
     chk.extra["version_suite_pairs"] = len(covered)
     # QUIC
-    ku = dict(SuiteSet='{"1301","1302","1303","1304"}', OfferFirst='{"same"}', Splits='{<<1>>}', Retries="BOOLEAN", ZeroRtts="BOOLEAN", MaxApp="5", MaxGen="3")
+    ku = dict(SuiteSet='{"1301","1302","1303","1304"}', OfferFirst='{"same","other","grease"}', Splits='{<<1>>}', Retries="BOOLEAN", ZeroRtts="{FALSE}", MaxApp="5", MaxGen="3")
     behs = c02.gen(chk, ku, 20 if quick else 300, chk.seed)
     rng.shuffle(behs)
     qjobs = [(b, rng.randrange(1 << 30), dict(odcid_len=rng.choice([8, 9, 13, 20]), c_cid_len=rng.choice(c02.CIDLENS), s_cid_len=rng.choice(c02.CIDLENS),
